@@ -235,6 +235,9 @@ pub enum TyperError {
     /// assert_eval failed value equality
     AssertEvalFailed(SourceLocation, ir::Constant, ir::Constant),
 
+    /// A pipeline with the same name was already defined
+    PipelineAlreadyDefined(Located<String>),
+
     /// No stages were declared for a pipeline definition
     PipelineNoEntryPoint(SourceLocation),
 
@@ -1069,6 +1072,11 @@ impl CompileError for TyperExternalError {
                     )
                 },
                 *loc,
+                Severity::Error,
+            ),
+            TyperError::PipelineAlreadyDefined(name) => w.write_message(
+                &|f| write!(f, "redefinition of pipeline '{}'", name.node),
+                name.location,
                 Severity::Error,
             ),
             TyperError::PipelineNoEntryPoint(loc) => w.write_message(
